@@ -1,0 +1,29 @@
+//go:build verif
+
+package failure
+
+// Contracts for govc (contract-based deductive verification, see /verif/DESIGN.md).
+// This file contains comments only and is compiled only with the build tag `verif`.
+
+// C13: the verifier records exactly one error per unmet expectation, none for a met one, and never counts requests to
+// the proxy's own API; Verify reports nil iff nothing is recorded; Reset returns to the initial state.
+//@ pred failureVerifierOK(v *verifier) = v != nil && v.merr != nil && merrIdle(v.merr) && tableIdle()
+//@ func (*verifier).ModifyRequest
+//@   serves C13
+//@   requires failureVerifierOK(v) && req != nil
+//@   modifies v.merr.errs, v.merr.errs[*], v.merr.mu.wheld, martian.ctxmu.rheld, sync.RWMutex.rheld
+//@   noframe
+//@   ensures[api-requests-never-counted] apiMarked(req) ==> len(v.merr.errs) == old(len(v.merr.errs))
+//@   ensures[every-other-request-records-exactly-one] !apiMarked(req) ==> len(v.merr.errs) == old(len(v.merr.errs)) + 1
+//@   ensures result == nil && failureVerifierOK(v)
+//@ func (*verifier).VerifyRequests
+//@   serves C13
+//@   requires failureVerifierOK(v)
+//@   modifies v.merr.mu.rheld
+//@   ensures[nil-iff-nothing-recorded] (result == nil) == (len(v.merr.errs) == 0)
+//@   ensures[reports-the-recorded-list] result != nil ==> result == v.merr
+//@ func (*verifier).ResetRequestVerifications
+//@   serves C13
+//@   requires v != nil
+//@   modifies v.merr
+//@   ensures[reset-forgets-everything] v.merr != nil && len(v.merr.errs) == 0 && merrIdle(v.merr)
